@@ -127,6 +127,17 @@ def run(chk):
         chk.tool_error("c10 e2e failed", out)
     vlib.validate_concat(chk, SPEC, "TraceDsdAgg", tcfg, tr3, "end-to-end over sockets", KNOWN)
     total += s3["runs"]
+    # the forwarder's reconnect / drop state machine (specs/DsdForward): real exporter thread, unix datagram and stream
+    # sockets, an agent that goes away and comes back while the forwarder is idle
+    r = vlib.tlc_mc("DsdForward", "DsdForward", "MC.cfg", workers=4, timeout=600, tag="fwd")
+    if not chk.expect_mc_ok(r, "DsdForward"):
+        return
+    tr5 = chk.path("fwd.ndjson")
+    rc, out, s5 = vlib.harness("c10", ["fwd", "--runs", 40 if thorough else 8, "--out", tr5, "--dir", chk.work], env=env, timeout=900)
+    if rc != 0 or not s5:
+        chk.tool_error("c10 fwd failed", out)
+    total += vlib.validate_concat(chk, "DsdForward", "TraceDsdForward", "TraceDsdForward.cfg", tr5, "forwarder vs restarting agent")
+    chk.notes["fwd"] = s5
     chk.cov["traces_validated_against_impl"] = total
     with open(chk.path("rec_aggressive.ndjson")) as f:
         chk.cov["samples"].append({"source": "recorded run", "events": [json.loads(next(f)) for _ in range(16)]})
